@@ -11,7 +11,7 @@ DRIVER = os.path.join(LEAN, ".lake", "build", "bin", "driver")
 TARGET = os.path.join(CACHE, "target")
 CLI_TARGET = os.path.join(CACHE, "cli-target")
 ALLOWED_AXIOMS = {"propext", "Classical.choice", "Quot.sound"}
-ENV = dict(os.environ, CARGO_NET_OFFLINE="true", CARGO_TERM_COLOR="never")
+ENV = dict(os.environ, CARGO_NET_OFFLINE="true", CARGO_TERM_COLOR="never", CARGO_TARGET_DIR=TARGET)
 
 os.makedirs(CACHE, exist_ok=True)
 
@@ -221,7 +221,7 @@ class Ctx:
 
     def build_cli(self):
         with lock("cargo-cli"):
-            rc, out, err = sh(["cargo", "build", "--offline", "-p", "oas3-gen", "--bin", "oas3-gen", "--target-dir", CLI_TARGET], cwd=REPO, timeout=3000)
+            rc, out, err = sh(["cargo", "build", "--offline", "-p", "oas3-gen", "--bin", "oas3-gen", "--target-dir", CLI_TARGET], cwd=REPO, timeout=3000, env=dict(ENV, CARGO_TARGET_DIR=CLI_TARGET))
             if rc != 0:
                 self.breaks.append(Break("harness", "cli-build", err))
                 return None
